@@ -405,11 +405,6 @@ scalar_harnesses!(byval, any_val, hint_val, option_val, enum_val, seq_val);
 scalar_harnesses!(byref, any_ref, hint_ref, option_ref, enum_ref, seq_ref);
 
 // ---- EXPERIMENTS (temporary)
-fn concrete_a() -> Value {
-    let mut data = [0u8; 21];
-    data[0] = b'A';
-    Value { inner: ValueInner::String(SmartString::Small { len: 1, kind: StringKind::Normal, data }) }
-}
 fn transmuted_a() -> Value {
     let mut raw = [0u8; 24];
     raw[1] = 1;
@@ -418,22 +413,56 @@ fn transmuted_a() -> Value {
 }
 #[kani::proof]
 #[kani::unwind(4)]
-fn e10() {
-    let v = concrete_a();
+fn e15() {
+    let v = transmuted_a();
     drop(v);
 }
 #[kani::proof]
 #[kani::unwind(4)]
-fn e11() {
-    expect_ok(vd::any(transmuted_a(), Rec), Seen::Str(1, [b'A', 0]));
+fn e16() {
+    let mut m = std::mem::MaybeUninit::<Value>::zeroed();
+    unsafe {
+        let p = m.as_mut_ptr() as *mut u8;
+        *p = 0;
+        *p.add(1) = 1;
+        *p.add(2) = b'A';
+        let v = m.assume_init();
+        drop(v);
+    }
 }
-#[kani::proof]
-#[kani::unwind(4)]
-fn e12() {
-    expect_ok(vd::en(transmuted_a(), EnumRec), EnumSeen::Variant(Seen::Str(1, [b'A', 0]), true));
+struct Rec2;
+impl<'de> Visitor<'de> for Rec2 {
+    type Value = (usize, u8, u8);
+    fn expecting(&self, _f: &mut fmt::Formatter) -> fmt::Result {
+        Ok(())
+    }
+    fn visit_str<E>(self, v: &str) -> Result<Self::Value, E> {
+        let b = pad2(v.as_bytes());
+        Ok((v.len(), b[0], b[1]))
+    }
 }
 #[kani::proof]
 #[kani::unwind(2)]
-fn e13() {
-    expect_ok(vd::any(concrete_a(), Rec), Seen::Str(1, [b'A', 0]));
+fn e17() {
+    let b0: u8 = kani::any();
+    let b1: u8 = kani::any();
+    let n: u8 = kani::any();
+    kani::assume(n <= 2);
+    kani::assume(n < 1 || b0 < 0x80 || (n == 2 && b0 >= 0xC2 && b0 <= 0xDF && b1 >= 0x80 && b1 <= 0xBF));
+    kani::assume(n < 2 || b0 >= 0x80 || b1 < 0x80);
+    let mut data = [0u8; 21];
+    data[0] = b0;
+    data[1] = b1;
+    let v = Value { inner: ValueInner::String(SmartString::Small { len: n, kind: StringKind::Normal, data }) };
+    match vd::any(v, Rec2) {
+        Ok((l, x, y)) => {
+            assert!(l == n as usize);
+            assert!(n < 1 || x == b0);
+            assert!(n < 2 || y == b1);
+        }
+        Err(e) => {
+            std::mem::forget(e);
+            panic!();
+        }
+    }
 }
